@@ -64,6 +64,33 @@ def quantumNumbers (ops : List (Poly K)) (s : Nat) : List K := ops.map fun op =>
 
 end
 
+/-! ### identification of quantum numbers that agree within the tolerance (first come, first served)
+
+`StatesClassification::compute` keeps, per symmetry operation, the list of values seen so far; a new value `v` is
+replaced by the first known value `k` with `close v k` (in the code `|v - k| <= 1e-10 * max(1, |k|)`), otherwise it
+becomes known itself. -/
+
+/-- one value against the known values of its operation: (value used, updated known values) -/
+def snap {Q : Type} (close : Q → Q → Bool) (known : List Q) (v : Q) : Q × List Q :=
+  match known.find? (fun k => close v k) with
+  | some k => (k, known)
+  | none => (v, known ++ [v])
+
+/-- the quantum numbers of one Fock state against the known values of every operation -/
+def snapRow {Q : Type} (close : Q → Q → Bool) : List (List Q) → List Q → List Q × List (List Q)
+  | k :: ks, v :: vs =>
+    let r := snap close k v
+    let rest := snapRow close ks vs
+    (r.1 :: rest.1, r.2 :: rest.2)
+  | [], vs => (vs, [])
+  | ks, [] => ([], ks)
+
+/-- all Fock states in ascending order (`rows[s]` = raw quantum numbers of state `s`, `nops` operations) -/
+def snapAll {Q : Type} (close : Q → Q → Bool) (nops : Nat) (rows : List (List Q)) : List (List Q) :=
+  (rows.foldl (fun (acc : List (List Q) × List (List Q)) row =>
+      let r := snapRow close acc.2 row
+      (acc.1 ++ [r.1], r.2)) ([], List.replicate nops [])).1
+
 /-- `StatesClassification::compute`: ascending scan of the Fock states, blocks numbered by first
 appearance of their quantum numbers (compared through `qeq`; the code compares hashes of the bit
 patterns). Returns the block of every state and the states of every block. -/
